@@ -232,7 +232,9 @@ def emit(ast, acc_names=None, vty="i32", decls=()) -> str:
             lnames = ", ".join(f'"{n}"' for n in acc.get("launch_fields", [])[: len(lv)])
             largs = "".join(f"{v}, " for v in lv)
             ltys = "".join(f"{vty}, " for _ in lv)
-            e(ind, f'{tk} = "accfg.launch"({largs}{st}) <{{param_names = [{lnames}], accelerator = "{an}"}}> : ({ltys}!accfg.state<"{an}">) -> !accfg.token<"{an}">')
+            pc = s.get("pc")
+            attrs = f' {{m = {pc["m"]} : i32, mult_vals = array<i32: {", ".join(map(str, pc["mult"]))}>, shift_vals = array<i32: {", ".join(map(str, pc["shift"]))}>}}' if pc else ""
+            e(ind, f'{tk} = "accfg.launch"({largs}{st}) <{{param_names = [{lnames}], accelerator = "{an}"}}>{attrs} : ({ltys}!accfg.state<"{an}">) -> !accfg.token<"{an}">')
             for g in s.get("gap", []):
                 stmt(ind, g)
             e(ind, f'"accfg.await"({tk}) : (!accfg.token<"{an}">) -> ()')
@@ -306,6 +308,8 @@ def emit(ast, acc_names=None, vty="i32", decls=()) -> str:
         e(2, f"%k{j} = arith.constant {1000 + 7 * j} : {vty}")
     e(2, f"%one = arith.constant 1 : {vty}")
     e(2, f"%zero = arith.constant 0 : {vty}")
+    for nm, v in sorted(ast.get("extra_consts", {}).items()):
+        e(2, f"{nm} = arith.constant {v} : {vty}")
     stmts(2, ast["body"])
     e(2, "func.return")
     e(1, "}")
